@@ -680,6 +680,10 @@ func (g Gateway) GetByIndexStream(in *hydrapb.GetByIndexStreamRequest, stream hy
 		sortCandidates(candidates, beaconType, order)
 		treasures = candidates
 		residualFilters = plan.Residual
+		if hasAnyLabels(filters) {
+			// the label of the indexed leg is reported by evaluating the whole filter on the candidates
+			residualFilters = filters
+		}
 	} else {
 		// Bypass: legacy beacon walk, full per-row predicate.
 		var err error
@@ -818,6 +822,9 @@ func (g Gateway) GetByIndexStreamFromMany(in *hydrapb.GetByIndexStreamFromManyRe
 				sortCandidates(candidates, beaconType, order)
 				treasures = candidates
 				residualFilters = plan.Residual
+				if hasAnyLabels(filters) {
+					residualFilters = filters
+				}
 			} else {
 				treasures, err = swampInterface.GetTreasuresByBeacon(
 					beaconType, order,
